@@ -159,6 +159,9 @@ def print_known(pid, what):
 
 def finish(ev, n_viol):
     ev.violations = n_viol
+    hyp_mod = sys.modules.get("hyp")
+    if hyp_mod is not None and getattr(hyp_mod, "UNCONFIRMED", None):
+        ev.cov["unconfirmed_failures"] = hyp_mod.UNCONFIRMED[:10]      # found once, passed on replay: not reported as violations
     p = ev.write()
     sys.stdout.write("[%s %s] evaluations=%s distinct_nontrivial=%s violations=%d wall=%.0fs evidence=%s\n" % (
         ev.pid, ev.tier, ev.cov.get("evaluations"), ev.cov.get("distinct_nontrivial"), n_viol, time.time() - ev.t0, p))
